@@ -212,9 +212,21 @@ pub fn run(rep: &mut Rep) {
                             e.insert(pos, (key.clone(), val.clone()));
                             // sometimes several unknown members, occasionally hundreds of them
                             if rng.chance(1, 4) {
-                                let many = if rng.chance(1, 8) { *rng.pick(&[254u64, 255, 256, 300]) } else { rng.range(1, 3) };
-                                for _ in 0..many {
-                                    let k2 = gen_unknown_key(&mut rng, &known);
+                                let many = if rng.chance(1, 3) { *rng.pick(&[3u64, 4, 5, 6, 7, 8, 9, 15, 16, 17, 23, 24, 254, 255, 256, 300]) } else { rng.range(1, 3) };
+                                for j in 0..many {
+                                    // short distinct keys when there are many of them (size budget)
+                                    let k2 = if many > 3 {
+                                        let mut k = format!("u{}", j);
+                                        if j % 5 == 0 {
+                                            k = (*rng.pick(&REAL_WORLD)).to_string();
+                                        }
+                                        if known.iter().any(|x| *x == k) {
+                                            continue;
+                                        }
+                                        V::text(&k)
+                                    } else {
+                                        gen_unknown_key(&mut rng, &known)
+                                    };
                                     if e.iter().any(|(k, _)| *k == k2) {
                                         continue;
                                     }
